@@ -20,8 +20,14 @@ pub fn check_point(ctx: &Ctx, lat: f64, lon: f64) -> Check {
         ctx.exclude("recovered latitude within 1e-7 deg of an NL transition (table vs formula may legitimately differ)");
         return Ok(());
     }
-    let (fe, me) = airborne_via_decoder(0x4840d6, 11, 0xc38, 0, e.yz, e.xz).map_err(|x| Failure::new("c04:frame-rejected", x, rep.clone()))?;
-    let (fo, mo) = airborne_via_decoder(0x4840d6, 11, 0xc38, 1, o.yz, o.xz).map_err(|x| Failure::new("c04:frame-rejected", x, rep.clone()))?;
+    // everything else in the two reports (type code 9-18 / 20-22, altitude code, address) varies with the point
+    let v = h64(&(lat.to_bits(), lon.to_bits()));
+    const TCS: [u8; 13] = [9, 10, 11, 12, 13, 14, 15, 16, 17, 18, 20, 21, 22];
+    let (tc_e, tc_o) = (TCS[(v % 13) as usize], TCS[((v >> 8) % 13) as usize]);
+    let (alt_e, alt_o) = (((v >> 16) & 0xfff) as u16, if (v >> 28) & 1 == 0 { ((v >> 16) & 0xfff) as u16 } else { ((v >> 32) & 0xfff) as u16 });
+    let icao = 0x100000 + ((v >> 40) & 0xfffff) as u32;
+    let (fe, me) = airborne_via_decoder(icao, tc_e, alt_e, 0, e.yz, e.xz).map_err(|x| Failure::new("c04:frame-rejected", x, rep.clone()))?;
+    let (fo, mo) = airborne_via_decoder(icao, tc_o, alt_o, 1, o.yz, o.xz).map_err(|x| Failure::new("c04:frame-rejected", x, rep.clone()))?;
     if me.lat_cpr != e.yz || me.lon_cpr != e.xz || mo.lat_cpr != o.yz || mo.lon_cpr != o.xz {
         return Err(Failure::new("c04:cpr-fields-not-transported", format!("encoded ({},{})/({},{}) decoded ({},{})/({},{})", e.yz, e.xz, o.yz, o.xz, me.lat_cpr, me.lon_cpr, mo.lat_cpr, mo.lon_cpr), rep));
     }
@@ -60,9 +66,17 @@ pub fn check_point(ctx: &Ctx, lat: f64, lon: f64) -> Check {
             }
         }
     }
-    for (name, first, second) in [("even-even", &me, &me), ("odd-odd", &mo, &mo)] {
+    // same parity: the very same report twice, and two different reports (a second point a few metres to a few
+    // hundred kilometres away, another altitude and type code) in both orders
+    let step = [1e-5, 1.05e-3, 0.02, 0.7, 3.3, 9.0][((v >> 52) % 6) as usize];
+    let lat2 = if lat + step <= 90.0 { lat + step } else { lat - step };
+    let lon2 = if lon + 1.5 * step < 180.0 { lon + 1.5 * step } else { lon - 1.5 * step };
+    let (e2, o2) = (encode(lat2, lon2, 0, false), encode(lat2, lon2, 1, false));
+    let (_, me2) = airborne_via_decoder(icao, tc_o, alt_o ^ 0x020, 0, e2.yz, e2.xz).map_err(|x| Failure::new("c04:frame-rejected", x, rep.clone()))?;
+    let (_, mo2) = airborne_via_decoder(icao, tc_e, alt_e ^ 0x020, 1, o2.yz, o2.xz).map_err(|x| Failure::new("c04:frame-rejected", x, rep.clone()))?;
+    for (name, first, second) in [("even-even", &me, &me), ("odd-odd", &mo, &mo), ("even-even2", &me, &me2), ("even2-even", &me2, &me), ("odd-odd2", &mo, &mo2), ("odd2-odd", &mo2, &mo)] {
         ctx.eval();
-        let rep = json!({"kind": "point", "lat": lat, "lon": lon, "order": name, "frames": frames});
+        let rep = json!({"kind": "point", "lat": lat, "lon": lon, "order": name, "frames": frames, "second_point": [lat2, lon2]});
         let got = catch(|| airborne_position(first, second)).map_err(|p| Failure::new("c04:panic", p, rep.clone()))?;
         if got.is_some() {
             return Err(Failure::new("c04:same-parity-gave-position", format!("{name}: {got:?}"), rep));
@@ -71,8 +85,21 @@ pub fn check_point(ctx: &Ctx, lat: f64, lon: f64) -> Check {
     Ok(())
 }
 
+pub fn check_points(ctx: &Ctx, pts: &[(f64, f64)]) -> Check {
+    for (i, (la, lo)) in pts.iter().enumerate() {
+        if let Err(mut e) = check_point(ctx, *la, *lo) {
+            if i > 0 {
+                e.signature = format!("{}:after-other-points", e.signature);
+                e.replay = json!({"kind": "sequence", "points": pts.iter().map(|p| vec![p.0, p.1]).collect::<Vec<_>>()});
+            }
+            return Err(e);
+        }
+    }
+    Ok(())
+}
+
 pub fn run(ctx: &Ctx) {
-    ctx.set_rule("true points from 9 strata (uniform sphere, +-50 grid steps around each of the 58 NL transitions, +-87 deg +-3 m and exactly on the grid, poles, equator, even/odd latitude-zone edges, special meridians); each encoded even+odd by an independent DO-260B encoder, wrapped in DF17 TC11 frames, decoded by Message::try_from and airborne_position in both orders and with equal parities. Non-trivial = an ordered pair that returned a position; distinct by (YZ0,XZ0,YZ1,XZ1,order).");
+    ctx.set_rule("true points from 9 strata (uniform sphere, +-50 grid steps around each of the 58 NL transitions, +-87 deg +-3 m and exactly on the grid, poles, equator, even/odd latitude-zone edges, special meridians); each encoded even+odd by an independent DO-260B encoder, wrapped in DF17 frames (every airborne type code, any altitude code, any address), decoded by Message::try_from and airborne_position in both orders; equal parities: the same report twice, and two different reports (second point 1 m to 1000 km away, other altitude and type code) in both orders. Plus sequences of related points (a whole number of latitude zones apart, then the first again) on one thread. Non-trivial = an ordered pair that returned a position; distinct by (YZ0,XZ0,YZ1,XZ1,order).");
     ctx.assume("independent CPR encoder and closed-formula NL (pinned by the published example pair and table values)");
     ctx.assume("cases whose recovered latitude is within 1e-7 deg of an inexact NL transition are excluded (counted); +-87 is exact and not excluded");
     let cases = ctx.tier.pick(640_000u32, 8_000_000u32);
@@ -85,6 +112,20 @@ pub fn run(ctx: &Ctx) {
                 ctx.sample(json!({"lat": p.lat, "lon": p.lon, "stratum": p.stratum}));
             }
             check_point(ctx, p.lat, p.lon)
+        });
+    });
+    // related points one after the other on one thread (a whole number of even / odd latitude zones apart, so that
+    // one of the two reports carries the same latitude count; then the first point again): the oracle is the same,
+    // what a pair decodes to may not depend on what was decoded before
+    (0..shards).into_par_iter().for_each(|s| {
+        run_prop(ctx, &format!("sequence-{s}"), cases / shards / 8, (point(), -4i32..=4, proptest::bool::ANY, -3i32..=3), |(p, k, odd, m): &(Pt, i32, bool, i32)| {
+            ctx.class("sequence of related points on one thread");
+            let dlat = if *odd { 360.0 / 59.0 } else { 6.0 };
+            let k = if *k == 0 { 1 } else { *k };
+            let lat2 = p.lat + k as f64 * dlat;
+            let lat2 = if lat2.abs() <= 90.0 { lat2 } else { p.lat - k as f64 * dlat };
+            let pts = [(p.lat, p.lon), (lat2.clamp(-90.0, 90.0), vcore::cprenc::wrap180(p.lon + *m as f64 * 11.0)), (p.lat, p.lon)];
+            check_points(ctx, &pts)
         });
     });
     // deterministic sweep: every grid latitude +-60 steps around each transition, both hemispheres, 3 longitudes
@@ -116,6 +157,11 @@ pub fn run(ctx: &Ctx) {
 }
 
 pub fn replay(ctx: &Ctx, v: &Value) {
+    if v["kind"] == "sequence" {
+        let pts: Vec<(f64, f64)> = v["points"].as_array().map(|a| a.iter().map(|p| (p[0].as_f64().unwrap_or(0.0), p[1].as_f64().unwrap_or(0.0))).collect()).unwrap_or_default();
+        ctx.judge(check_points(ctx, &pts));
+        return;
+    }
     let lat = v["lat"].as_f64().unwrap_or(0.0);
     let lon = v["lon"].as_f64().unwrap_or(0.0);
     let r = check_point(ctx, lat, lon);
